@@ -51,6 +51,12 @@ def make_case(G, i):
         A, B, cls = C03.make_case(G, C03.TEMPLATES.index('coplanar') + len(C03.TEMPLATES) * 4 * R.randrange(1000))
         if C03.ok_size(A) and C03.ok_size(B):
             return A, B, cls
+    if (ka, kb) == ('B', 'B') and R.random() < 0.4:
+        # a body inside another one, touching it in a point or two only / two bodies on a shared face plane
+        tp = R.choice(['nested-touching', 'shared-face-plane'])
+        A, B, cls = C03.make_case(G, C03.TEMPLATES.index(tp) + len(C03.TEMPLATES) * (4 * R.randrange(1000) + 3))
+        if (A[0], B[0]) == ('B', 'B') and C03.ok_size(A) and C03.ok_size(B):
+            return A, B, cls
     for _ in range(50):
         A, B, cls = C03.make_case(G, R.randrange(10 ** 6))
         if (A[0], B[0]) == (ka, kb) and C03.ok_size(A) and C03.ok_size(B):
